@@ -443,6 +443,8 @@ func (n *Node) Crash(restartMs int) {
 	n.Recovered = false
 	if n.cancel != nil {
 		n.cancel()
+		// the goroutines woken by the cancelled context park before the crash is carried out
+		w.Sim.Settle()
 	}
 	w.Sim.Crash(n.ID)
 	n.closeFiles()
